@@ -389,7 +389,7 @@ def _inline_into(host: ast.AST, hcls: Optional[ast.ClassDef], helpers) -> int:
             if m is None:
                 i += 1
                 continue
-            if first and isinstance(call.func, ast.Attribute):
+            if first and isinstance(call.func, ast.Attribute) and not static:
                 m[first] = call.func.value
             host_names = {x.id for x in ast.walk(host) if isinstance(x, ast.Name)} | {a.arg for a in host.args.args + host.args.kwonlyargs}  # type: ignore[attr-defined]
             locals_h = _stored_names(list(pre))
